@@ -780,3 +780,110 @@ def rule_wr_aggw(cx, rep, port):
         rep.undecided(_key(c, 'finish') + ' row', g0, 'how `{}` ranges over the aggregators / keys is not recognised'.format(node_text(g0, 60)))
     else:
         rep.decide(bool(ag_ok and key_ok), _key(c, 'finish') + ' row', g0, 'each output field is get_final(key) of the column\'s aggregator, in column order', 'a row is not assembled as get_final(key) of every aggregator in column order (`{}`)'.format(node_text(g0, 60)))
+
+
+def _mutates_param(p, cls, fd, idx, depth=0, seen=None):
+    """does method fd store into elements of its parameter number idx (directly, or by handing it to a method of the same class that does)?"""
+    seen = seen if seen is not None else set()
+    if (fd.name, idx) in seen or depth > 3 or idx >= len(fd.args.args):
+        return None
+    seen.add((fd.name, idx))
+    prm = fd.args.args[idx].arg
+    for n in ast.walk(fd):
+        if isinstance(n, (ast.Assign, ast.AugAssign)):
+            tgts = n.targets if isinstance(n, ast.Assign) else [n.target]
+            for t in tgts:
+                if isinstance(t, ast.Subscript) and is_name(t.value, prm):
+                    return n
+        if isinstance(n, ast.Call) and isinstance(n.func, ast.Attribute) and is_name(n.func.value, prm) and n.func.attr in ('append', 'push', 'pop', 'insert', 'sort', 'reverse', 'splice', 'shift', 'unshift', 'extend', 'clear'):
+            return n
+        if isinstance(n, ast.Call) and isinstance(n.func, ast.Attribute) and is_name(n.func.value, 'self'):
+            ms = {m.name: m for m in cls.body if isinstance(m, ast.FunctionDef)}
+            callee = ms.get(n.func.attr)
+            if callee is not None:
+                for j, a in enumerate(n.args):
+                    if is_name(a, prm):
+                        off = 1 if callee.args.args and callee.args.args[0].arg in ('self', 'this') else 0
+                        r = _mutates_param(p, cls, callee, j + off, depth + 1, seen)
+                        if r is not None:
+                            return r
+    return None
+
+
+def rule_wr_afterfwd(cx, rep, port):
+    """a record that was handed to the next writer is not looked at again: output writers normalise the list they receive in place
+    (None -> '', numbers -> text, sub-lists joined), so anything computed from the record afterwards - e.g. a DISTINCT key - is
+    computed from a different value than the one tested before"""
+    p, mod, chain, sinks = _roles(cx, port)
+    mut = []
+    for s in sinks:
+        ms = {m.name: m for m in s.body if isinstance(m, ast.FunctionDef)}
+        w = ms.get('write')
+        if w is None:
+            continue
+        off = 1 if w.args.args and w.args.args[0].arg in ('self', 'this') else 0
+        r = _mutates_param(p, s, w, off)
+        if r is not None:
+            mut.append((s, r))
+    n = 0
+    for c in chain:
+        fd = roles.methods(c).get('write')
+        if fd is None or len(fd.args.args) < 2:
+            continue
+        rec = fd.args.args[1].arg
+        g = cfgmod.CFG(fd)
+        is_fwd = lambda x: isinstance(x, ast.Call) and call_name(x) == 'self.subwriter.write' and any(is_name(a, rec) for a in x.args)  # noqa: E731
+        fwd = [nd for nd in g.nodes if nd.kind in ('stmt', 'test') and cfgmod.node_contains(nd, is_fwd)]
+        if not fwd:
+            continue
+        n += 1
+        reads = lambda nd: nd not in fwd and nd.kind in ('stmt', 'test') and any(isinstance(x, ast.Name) and x.id == rec and isinstance(x.ctx, ast.Load) for x in ast.walk(cfgmod.simple_header(nd)))  # noqa: E731
+        later = None
+        for f_ in fwd:
+            for s_, lab in f_.succ:
+                if not NORMAL(f_, s_, lab):
+                    continue
+                if reads(s_):
+                    later = s_
+                elif g.exists_path(s_, reads, edge_ok=NORMAL):
+                    later = [x for x in g.nodes if reads(x)][0]
+        if later is None:
+            rep.holds(_key(c, 'write'), fd, 'the record is not read after it was forwarded')
+        elif mut:
+            rep.violated(_key(c, 'write'), later.ast, '`{}` reads the record after it was handed to the next writer; {}.write normalises the list it receives in place (`{}`), so the value read here differs from the one seen before forwarding'.format(node_text(cfgmod.simple_header(later), 80), mut[0][0].name, node_text(mut[0][1], 60)))
+        else:
+            rep.holds(_key(c, 'write'), fd, 'the record is read after forwarding, but no output writer of this port modifies the list it receives')
+    rep.require_count('forwarding writers', n, 2, (p.files[mod], 0))
+
+
+def rule_wr_freshrow(cx, rep, port):
+    """a writer that emits many records from a loop hands over a different list each time: a buffer created before the loop and
+    refilled per iteration is one object, so a receiver that keeps what it is given (the table writers, a sorting writer, a
+    user-defined writer) ends up with N references to the last record"""
+    p, mod, chain, sinks = _roles(cx, port)
+    n = 0
+    for c in chain:
+        for mname, fd in roles.methods(c).items():
+            for call in _subwrite_calls(fd):
+                if not (call.args and isinstance(call.args[0], ast.Name)):
+                    continue
+                v = call.args[0].id
+                loop = getattr(call, 'parent', None)
+                while loop is not None and loop is not fd and not isinstance(loop, (ast.For, ast.While)):
+                    loop = getattr(loop, 'parent', None)
+                if loop is None or loop is fd:
+                    continue
+                n += 1
+                inside = {id(x) for x in ast.walk(loop)}
+                binds_in = [x for x in ast.walk(loop) if isinstance(x, ast.Name) and x.id == v and isinstance(x.ctx, ast.Store)]
+                binds_out = [x for x in walk_no_nested(fd) if isinstance(x, ast.Name) and x.id == v and isinstance(x.ctx, ast.Store) and id(x) not in inside]
+                muts = [x for x in ast.walk(loop) if (isinstance(x, ast.Subscript) and isinstance(x.ctx, ast.Store) and is_name(x.value, v)) or
+                        (isinstance(x, ast.Call) and isinstance(x.func, ast.Attribute) and is_name(x.func.value, v) and x.func.attr in ('append', 'push', 'clear', 'extend', 'insert', 'pop', 'splice', 'fill'))]
+                key = _key(c, mname) + ' row object'
+                if binds_in:
+                    rep.holds(key, call, '`{}` is bound anew in every iteration'.format(v))
+                elif binds_out and muts:
+                    rep.violated(key, muts[0], '`{}` is created once before the loop and refilled for every record (`{}`): every record handed to the next writer is the same list object, so a writer that keeps the records it receives holds N references to the last one'.format(v, node_text(muts[0], 60)))
+                else:
+                    rep.undecided(key, call, 'where `{}` is bound was not recognised'.format(v))
+    rep.require_count('records emitted from a loop', n, 2, (p.files[mod], 0))
